@@ -8,16 +8,14 @@ Lemma m_fetch_none now k M : M k = None -> m_fetch now k M = OMiss.
 Proof. unfold m_fetch. intros ->. reflexivity. Qed.
 
 (* A. a fetch either misses or returns exactly value, trigger set and deadline (and generation, when one was given)
-      of the most recent store under that key -- for every limit, every allocator behaviour except a store that
-      fails before touching the cache (FDropBefore keeps the old entry: see docs) *)
+      of the most recent store under that key -- for every limit and every allocator behaviour *)
 Theorem fetch_hit_is_latest_store_l lim now pre k v tin d g f nem mid :
-  Forall op_no_drop_before (pre ++ Store k v tin d g f nem :: mid) ->
   forallb (fun o => negb (stores_key k o)) mid = true ->
   let r := last_out (snd (run now ((pre ++ Store k v tin d g f nem :: mid) ++ [Fetch k]) (init lim))) in
   r = OMiss \/ exists g', (forall x, g = Some x -> g' = x) /\ r = OHit v (store_trigs k tin) d g'.
 Proof.
-  intros Hops Hmid r.
-  destruct (last_fetch_sound lim now _ k Hops) as [H|H]; [left; exact H|]. fold r in H.
+  intros Hmid r.
+  destruct (last_fetch_sound lim now (pre ++ Store k v tin d g f nem :: mid) k) as [H|H]; [left; exact H|]. fold r in H.
   destruct (spec_after_store now pre k v tin d g f nem mid Hmid) as (g' & Hg & [Hk|Hk] & _); unfold mk_of in Hk.
   - left. rewrite H. apply m_fetch_none; exact Hk.
   - rewrite H. unfold m_fetch. rewrite Hk. cbn [c_deadline c_data c_trigs c_gen].
@@ -27,14 +25,14 @@ Qed.
 (* B. it misses whenever, since that store, the key was removed, the cache was cleared, or any trigger attached to
       the entry (its own key included) was raised -- for every limit and allocator behaviour *)
 Theorem fetch_miss_after_invalidation_l lim now pre k v tin d g f nem mid0 inv mid :
-  Forall op_no_drop_before ((pre ++ Store k v tin d g f nem :: mid0) ++ inv :: mid) ->
   forallb (fun o => negb (stores_key k o)) mid0 = true ->
   invalidates k (store_trigs k tin) inv = true -> stores_key k inv = false ->
   forallb (fun o => negb (stores_key k o)) mid = true ->
   last_out (snd (run now (((pre ++ Store k v tin d g f nem :: mid0) ++ inv :: mid) ++ [Fetch k]) (init lim))) = OMiss.
 Proof.
-  intros Hops Hmid0 Hinv Hns Hmid.
-  destruct (last_fetch_sound lim now _ k Hops) as [H|H]; [exact H|]. rewrite H. apply m_fetch_none.
+  intros Hmid0 Hinv Hns Hmid.
+  destruct (last_fetch_sound lim now ((pre ++ Store k v tin d g f nem :: mid0) ++ inv :: mid) k) as [H|H]; [exact H|].
+  rewrite H. apply m_fetch_none.
   rewrite m_run_app, m_run_cons.
   destruct (spec_after_store now pre k v tin d g f nem mid0 Hmid0) as (g' & _ & Hk & _).
   apply m_run_stays_none; [exact Hmid|].
@@ -43,25 +41,23 @@ Qed.
 
 (* B2. remove and clear need no assumption on what was stored before *)
 Theorem fetch_miss_after_remove_or_clear_l lim now pre k inv mid :
-  Forall op_no_drop_before (pre ++ inv :: mid) ->
   invalidates_any k inv = true ->
   forallb (fun o => negb (stores_key k o)) mid = true ->
   last_out (snd (run now ((pre ++ inv :: mid) ++ [Fetch k]) (init lim))) = OMiss.
 Proof.
-  intros Hops Hinv Hmid.
-  destruct (last_fetch_sound lim now _ k Hops) as [H|H]; [exact H|]. rewrite H. apply m_fetch_none.
+  intros Hinv Hmid.
+  destruct (last_fetch_sound lim now (pre ++ inv :: mid) k) as [H|H]; [exact H|]. rewrite H. apply m_fetch_none.
   rewrite m_run_app, m_run_cons. apply m_run_stays_none; [exact Hmid|]. apply m_step_invalidates_any; exact Hinv.
 Qed.
 
 (* C. it misses when the deadline of the most recent store has passed *)
 Theorem fetch_miss_after_deadline_l lim now pre k v tin d g f nem mid :
-  Forall op_no_drop_before (pre ++ Store k v tin d g f nem :: mid) ->
   forallb (fun o => negb (stores_key k o)) mid = true ->
   (d < clock now (pre ++ Store k v tin d g f nem :: mid))%Z ->
   last_out (snd (run now ((pre ++ Store k v tin d g f nem :: mid) ++ [Fetch k]) (init lim))) = OMiss.
 Proof.
-  intros Hops Hmid Hd.
-  destruct (last_fetch_sound lim now _ k Hops) as [H|H]; [exact H|]. rewrite H.
+  intros Hmid Hd.
+  destruct (last_fetch_sound lim now (pre ++ Store k v tin d g f nem :: mid) k) as [H|H]; [exact H|]. rewrite H.
   destruct (spec_after_store now pre k v tin d g f nem mid Hmid) as (g' & _ & [Hk|Hk] & _); unfold mk_of in Hk.
   - apply m_fetch_none; exact Hk.
   - unfold m_fetch. rewrite Hk. cbn [c_deadline]. destruct (Z.ltb_spec d (clock now (pre ++ Store k v tin d g f nem :: mid))); [reflexivity|lia].
@@ -79,8 +75,10 @@ Proof.
   assert (Hmid' : forallb (fun o => negb (stores_key k o)) mid = true).
   { apply forallb_forall. intros o Ho. rewrite forallb_forall in Hmid. specialize (Hmid o Ho).
     destruct o; cbn [stores_key invalidates] in *; try reflexivity. exact Hmid. }
-  destruct (spec_after_store now pre k v tin d g FNone [] mid Hmid') as (g' & Hg & _ & Hk).
-  specialize (Hk Hmid). unfold mk_of in Hk.
+  destruct (spec_after_store now pre k v tin d g FNone [] mid Hmid') as (g' & Hg & _ & _ & Hk).
+  assert (Hnf : Forall op_no_fault mid).
+  { apply Forall_app in Hops. destruct Hops as [_ Hops]. inversion Hops; assumption. }
+  specialize (Hk eq_refl Hnf Hmid). unfold mk_of in Hk.
   exists g'. split; [exact Hg|]. rewrite (last_fetch_exact now _ k Hops).
   unfold m_fetch. rewrite Hk. cbn [c_deadline c_data c_trigs c_gen].
   destruct (Z.ltb_spec d (clock now (pre ++ Store k v tin d g FNone [] :: mid))); [lia|reflexivity].
@@ -88,11 +86,25 @@ Qed.
 
 (* E. a key that was never stored misses *)
 Theorem fetch_miss_never_stored_l lim now hist k :
-  Forall op_no_drop_before hist -> forallb (fun o => negb (stores_key k o)) hist = true ->
+  forallb (fun o => negb (stores_key k o)) hist = true ->
   last_out (snd (run now (hist ++ [Fetch k]) (init lim))) = OMiss.
 Proof.
-  intros Hops Hh. destruct (last_fetch_sound lim now _ k Hops) as [H|H]; [exact H|]. rewrite H. apply m_fetch_none.
+  intros Hh. destruct (last_fetch_sound lim now hist k) as [H|H]; [exact H|]. rewrite H. apply m_fetch_none.
   apply (m_run_stays_none hist now m_init k Hh). reflexivity.
+Qed.
+
+(* E2. a store that cannot be carried out (the value cannot be copied into the shared segment, the size test fires,
+       or the allocator fails while the entry is linked) leaves the key absent: every later fetch of it misses
+       until the next store under that key -- the superseded entry is never served *)
+Theorem fetch_miss_after_failed_store_l lim now pre k v tin d g f nem mid :
+  f <> FNone ->
+  forallb (fun o => negb (stores_key k o)) mid = true ->
+  last_out (snd (run now ((pre ++ Store k v tin d g f nem :: mid) ++ [Fetch k]) (init lim))) = OMiss.
+Proof.
+  intros Hf Hmid.
+  destruct (last_fetch_sound lim now (pre ++ Store k v tin d g f nem :: mid) k) as [H|H]; [exact H|]. rewrite H.
+  apply m_fetch_none.
+  destruct (spec_after_store now pre k v tin d g f nem mid Hmid) as (g' & _ & _ & Hk & _). exact (Hk Hf).
 Qed.
 
 (* F. rise t removes EVERY entry that carries t (every page that depended on it) and nothing else *)
